@@ -34,7 +34,7 @@ def dep_ok(E):
 
 
 def in_domain(f):
-    return f["wfn"] and f["bf"] and f["iswf"]
+    return f["wfn"] and f["dwf"] and f["iswf"] and not any(f["interp"])
 
 
 def run(tier, seed, rep):
@@ -46,6 +46,11 @@ def run(tier, seed, rep):
         n0 = len(cands) + 1
         from ..defs import variant, enum
         cands.append(enum(n0, [variant("Kb"), variant("KB"), variant("Mb")], style="lowercase")); n0 += 1
+        # a name that starts with the prefix still gets the prefix; escaped braces without a placeholder are part of the name
+        cands.append(enum(n0, [variant("Red"), variant("Apple", ts="Refresh"), variant("Blue", ser=["Re", "Re/blue"])], prefix="Re")); n0 += 1
+        cands.append(enum(n0, [variant("Apple"), variant("Avocado", "tuple", [D.field("u8")])], prefix="a", style="lowercase")); n0 += 1
+        cands.append(enum(n0, [variant("Set", "named", [D.field("u8", "members")], ts="set{{}}"), variant("Unit", ts="{{x}}"),
+                               variant("Tup", "tuple", [D.field("u8")], ser=["a", "}}b{{"])], prefix="p")); n0 += 1
         cands.append(enum(n0, [variant("Low"), variant("Medium", ser=["High"]), variant("High"), variant("Nowhere", dis=True), variant("Max")], prefix="dir:", style="kebab-case")); n0 += 1
         cands += [SC.names_def(rng, n0 + k) for k in range(sz["sample"])]
         facts = pipe.domain_pass(cands, PROP)
